@@ -15,6 +15,8 @@ Violation keys name the mechanism:
   escape:<Exc>:<hio function>                an exception left parse() on a well-formed message (fed whole)
   truth:<kind>:<framing>:<field>             R(whole) differs from the description in <field>
   frag:<kind>:<framing>:<field>              R(partition) differs from R(whole), first in <field>
+  stale-trailers-after-reuse                 a pipelined message without trailers reports the trailers of an earlier message
+                                             of the same parser object (ground-truth half; same mechanism as in C17)
 SERVER-DRIVEN mode (request sequences): the same comparison through the real `serving.Server` object - its service()
 rounds run over a stub connection (vf.mon.http_server), one scripted read per round - so that requestant/responder reuse
 on a kept connection is exercised: keep-alive sequences of 2-3 requests, pipelined (every 2-split of the byte string)
@@ -259,9 +261,8 @@ def truth_diff(snap, desc, first):
     for k in ORDER:
         if k == "trails":
             want = [list(t) for t in desc.get("trailers", [])] if desc["framing"] == "chunked" else []
-            if want or first:  # a reused parser keeps the previous message's trailers: only judged where unambiguous
-                if (snap["trails"] or []) != want:
-                    return k, snap["trails"], want
+            if (snap["trails"] or []) != want:   # judged per message, also on a reused parser
+                return k, snap["trails"], want
             continue
         if k in e and snap.get(k) != e[k]:
             return k, snap.get(k), e[k]
@@ -499,6 +500,12 @@ def run_case(case, ctx):
                        f"open={whole['open']}); bytes={raw[:300]!r}")
                 break
             td = truth_diff(whole["msgs"][i], d, i == 0)
+            if td and td[0] == "trails" and not td[2] and td[1] in [x.get("trailers") for x in descs[:i]]:
+                truth_ok = False
+                report("stale-trailers-after-reuse",
+                       f"message {i} ({d['framing']}, no trailers) on the reused {'Respondent' if kind == 'response' else 'Requestant'} "
+                       f"reports .trails={td[1]}: the trailers of an earlier message of the sequence (in every partition alike)")
+                break
             if td:
                 truth_ok = False
                 report(PRECEDENCE_KEY if trig else f"truth:{kind}:{d['framing']}:{td[0]}",
